@@ -479,10 +479,90 @@ pub fn run(ctx: &crate::RunCtx) -> (Summary, Vec<Violation>) {
             viols.push(v);
         }
     }
+    // ---- bytes this library never wrote: foreign prefixes in front of a valid stream, foreign streams
+    let mut raw_cases: Vec<(Vec<u8>, String, &str)> = vec![];
+    if let Some(item) = items.iter().find(|i| i.bytes.len() > 60 && i.bytes.len() < 1500) {
+        for (k, (bytes, what)) in crate::foreign::prefixed(&item.bytes).into_iter().enumerate() {
+            if k as u64 % ctx.nchild == ctx.child {
+                raw_cases.push((bytes, what, "foreign_prefix"));
+            }
+        }
+    }
+    let nforeign = ctx.count * if thorough { 5000 } else { 600 };
+    for j in 0..nforeign {
+        if j % ctx.nchild != ctx.child {
+            continue;
+        }
+        let (bytes, what) = crate::foreign::stream(ctx.seed, j);
+        if ctx.child == 0 {
+            if let Some(k) = what.rsplit("unusual: ").next() {
+                *sum.probes.entry(format!("foreign_{k}")).or_default() += 1;
+            }
+        }
+        raw_cases.push((bytes, what, "foreign_stream"));
+        if raw_cases.len() >= 256 {
+            run_raw(&mut raw_cases, &mut sum, &mut viols);
+        }
+    }
+    run_raw(&mut raw_cases, &mut sum, &mut viols);
     (sum, viols)
 }
 
+fn hex(b: &[u8]) -> String {
+    b.iter().map(|x| format!("{x:02x}")).collect()
+}
+
+fn unhex(s: &str) -> Result<Vec<u8>, String> {
+    if s.len() % 2 != 0 {
+        return Err("odd hex length".into());
+    }
+    (0..s.len() / 2).map(|i| u8::from_str_radix(&s[2 * i..2 * i + 2], 16).map_err(|e| e.to_string())).collect()
+}
+
+/// Raw stored bytes (never-panics half only): the parser returns an error or a result.
+fn exec_raw(bytes: &[u8], what: &str, sum: Option<(&mut Summary, &str)>) -> Option<Violation> {
+    let r = parse(bytes);
+    if let Some((sum, kind)) = sum {
+        sum.cases += 1;
+        sum.seam_ops += 1;
+        *sum.fault_kinds.entry(kind.to_owned()).or_default() += 1;
+        let o = match &r {
+            Err(_) => "panicked",
+            Ok(Parsed::Rejected) => "rejected",
+            Ok(Parsed::Accepted(Ok(_), _)) => "accepted",
+            Ok(Parsed::Accepted(Err(_), _)) => "accepted_decode_panicked",
+        };
+        *sum.outcomes.entry(format!("{kind}_{o}")).or_default() += 1;
+        if o != "rejected" || bytes.len() > 46 {
+            sum.distinct_nontrivial += 1;
+        }
+    }
+    match r {
+        Err(c) => Some(Violation {
+            class: "panic".into(),
+            site: c.site.clone(),
+            message: c.message.clone(),
+            detail: format!("parser::stream panicked on {} bytes: {what}", bytes.len()),
+            case: json!({"raw_hex": hex(bytes), "origin": what}),
+        }),
+        Ok(_) => None,
+    }
+}
+
+fn run_raw(cases: &mut Vec<(Vec<u8>, String, &str)>, sum: &mut Summary, viols: &mut Vec<Violation>) {
+    for (bytes, what, kind) in cases.drain(..) {
+        if let Some(v) = exec_raw(&bytes, &what, Some((sum, kind))) {
+            *sum.classes.entry(v.class.clone()).or_default() += 1;
+            viols.push(v);
+        }
+    }
+}
+
 pub fn exec(case: &serde_json::Value) -> Result<Option<Violation>, String> {
+    if let Some(h) = case.get("raw_hex").and_then(serde_json::Value::as_str) {
+        let bytes = unhex(h)?;
+        return Ok(exec_raw(&bytes, case.get("origin").and_then(serde_json::Value::as_str).unwrap_or(""), None));
+    }
     let c: Case = serde_json::from_value(case.clone()).map_err(|e| format!("bad C16 case: {e}"))?;
     let item = corpus::build_spec(c.corpus_idx, c.spec.clone());
     let other_item = match &c.fault {
@@ -503,6 +583,25 @@ pub fn exec(case: &serde_json::Value) -> Result<Option<Violation>, String> {
 /// Shrinks a violating case: the earliest single-bit flip / shortest truncation in the same stream with
 /// the same class and site, else the case itself.
 pub fn minimise(case: &serde_json::Value, class: &str, site: &str) -> serde_json::Value {
+    if let Some(h) = case.get("raw_hex").and_then(serde_json::Value::as_str) {
+        // the shortest prefix of the stored bytes that still fails the same way
+        let Ok(bytes) = unhex(h) else {
+            return case.clone();
+        };
+        let what = case.get("origin").and_then(serde_json::Value::as_str).unwrap_or("").to_owned();
+        let same = |n: usize| exec_raw(&bytes[..n], &what, None).map_or(false, |v| v.class == class && v.site == site);
+        let mut best = bytes.len();
+        for n in 0..bytes.len() {
+            if same(n) {
+                best = n;
+                break;
+            }
+        }
+        if best == bytes.len() {
+            return case.clone();
+        }
+        return json!({"raw_hex": hex(&bytes[..best]), "origin": format!("{what} (cut to its first {best} bytes)")});
+    }
     let Ok(c) = serde_json::from_value::<Case>(case.clone()) else {
         return case.clone();
     };
